@@ -1401,7 +1401,10 @@ class ClassicChannel(utils.EventEmitter):
         for option in options:
             match option[0]:
                 case L2CAP_Configure_Request.ParameterType.MTU:
-                    self.peer_mtu = struct.unpack('<H', option[1])[0]
+                    # Every implementation supports at least the minimum MTU
+                    self.peer_mtu = max(
+                        struct.unpack('<H', option[1])[0], L2CAP_MIN_BR_EDR_MTU
+                    )
                     logger.debug('Peer MTU = %d', self.peer_mtu)
                     replied_options.append(option)
                 case (
